@@ -355,7 +355,9 @@ pub fn check_faults(w: &World, plan: &Plan, prop: &str, _is_async: bool) -> Opti
             }
         }
     }
-    let reached_closed = matches!(w.recvs.last().map(|r| &r.outcome), Some(RecvOutcome::Closed));
+    // "reached the end": Closed reported when the writer had gone and every byte was delivered
+    // (a Closed that an implementation reports for a failed read does not count)
+    let reached_closed = matches!(w.recvs.last(), Some(r) if matches!(r.outcome, RecvOutcome::Closed) && r.stream_exhausted);
     let eof_forced = w.eof_at.is_some();
     if reached_closed && !eof_forced && got.len() != whole.len() {
         return v(prop, "R1-retry", "lost", "recv", format!("receiver reached Closed after {} messages but the sink holds {} whole frames", got.len(), whole.len()));
